@@ -63,13 +63,23 @@ CHUNK_EXT = (
 )
 
 # Pre-compiled regular expressions for use elsewhere
-ONLY_HEXDIG_RE = re.compile(("^" + HEXDIG + "+$").encode("latin-1"))
-ONLY_DIGIT_RE = re.compile(("^" + DIGIT + "+$").encode("latin-1"))
+# NB: "\Z", not "$": "$" also matches just before a trailing "\n", which
+# would let e.g. the chunk size "5\n" or a Content-Length of "5\n" through
+ONLY_HEXDIG_RE = re.compile(("^" + HEXDIG + "+\\Z").encode("latin-1"))
+ONLY_DIGIT_RE = re.compile(("^" + DIGIT + "+\\Z").encode("latin-1"))
 HEADER_FIELD_RE = re.compile(
     (
-        "^(?P<name>" + TOKEN + "):" + OWS + "(?P<value>" + FIELD_VALUE + ")" + OWS + "$"
+        "^(?P<name>"
+        + TOKEN
+        + "):"
+        + OWS
+        + "(?P<value>"
+        + FIELD_VALUE
+        + ")"
+        + OWS
+        + "\\Z"
     ).encode("latin-1")
 )
 QUOTED_PAIR_RE = re.compile(QUOTED_PAIR)
 QUOTED_STRING_RE = re.compile(QUOTED_STRING)
-CHUNK_EXT_RE = re.compile(("^" + CHUNK_EXT + "$").encode("latin-1"))
+CHUNK_EXT_RE = re.compile(("^" + CHUNK_EXT + "\\Z").encode("latin-1"))
